@@ -1,13 +1,31 @@
 import TdModel.Model.C35Proto
 import TdModel.Model.C37
 import TdModel.Model.C37Unescape
+import TdModel.Model.C37Html
 open TdModel
 
 /-- The C37 driver replays recorded builder calls through the C35 builder model (`run …`),
 evaluates the monitor (`holds …`) — same protocol as drv_c35 — and runs the `telegramUnescape`
 model (`unesc <hex>` → hex, or `panic`). -/
+def tagOfHex (h : String) : Option String := do
+  let b ← ofHex h
+  pure (String.ofList (b.map fun x => Char.ofNat x.toNat))
+
+def parseHTok (s : String) : Option C37H.HTok :=
+  match s.splitOn ":" with
+  | ["X", t] => do pure (.text (← Drv35.parseText t))
+  | ["S", h] => do pure (.start (← tagOfHex h))
+  | ["E", h] => do pure (.stop (← tagOfHex h))
+  | ["C"] => some .stopAny
+  | _ => none
+
 def handle (line : String) : String :=
   match words line with
+  | "htmltoks" :: toks => match toks.mapM parseHTok with
+    | some ts => match C37H.htmlResult ts with
+      | some r => Drv35.showText r.1 ++ " " ++ Drv35.showEnts r.2
+      | none => "err"
+    | none => "bad-op"
   | ["unesc", h] => match ofHex h with
     | some b => match C37U.telegramUnescape b with
       | some out => toHex out
